@@ -329,6 +329,11 @@ func (e *Engine) intrinsic(fr *frame, fn *ssa.Function, args []Value, c *ssa.Cal
 		mp := int(e.mustConst(args[1].(*Term), "Scheduled bound"))
 		e.threads = newThreadState(b, mp)
 		return nil
+	case "SchedFreeze":
+		if e.threads != nil {
+			e.threads.frozen = args[0].(*Term) == e.tt.True
+		}
+		return nil
 	case "Yield":
 		if e.threads != nil {
 			e.threads.yield(e, "yield")
